@@ -1139,31 +1139,25 @@ fn getset_command(
         anyhow::bail!("Must specify either sample names or --prefix");
     };
 
-    // If output file specified, extract to file
-    // Otherwise, extract to stdout (via temp file for simplicity)
-    if let Some(output_path) = output {
-        // Extract each sample to the output file (append mode)
-        for sample_name in &samples_to_extract {
-            if verbosity > 0 {
-                eprintln!("Extracting sample: {sample_name}");
-            }
-            decompressor.write_sample_fasta(sample_name, &output_path)?;
+    // write_sample_fasta() creates (truncates) its output file, so every sample is extracted to a
+    // scratch file first and then appended to the destination (the -o file or stdout).
+    let temp_path = std::env::temp_dir().join(format!("agc_extract_{}.fasta", std::process::id()));
+    let mut output_file = match &output {
+        Some(output_path) => Some(std::fs::File::create(output_path)?),
+        None => None,
+    };
+    for sample_name in &samples_to_extract {
+        if verbosity > 0 {
+            eprintln!("Extracting sample: {sample_name}");
         }
-    } else {
-        // Extract to temp file then write to stdout
-        let temp_path =
-            std::env::temp_dir().join(format!("agc_extract_{}.fasta", std::process::id()));
-        for sample_name in &samples_to_extract {
-            if verbosity > 0 {
-                eprintln!("Extracting sample: {sample_name}");
-            }
-            decompressor.write_sample_fasta(sample_name, &temp_path)?;
-        }
-        // Write temp file to stdout
+        decompressor.write_sample_fasta(sample_name, &temp_path)?;
         let contents = std::fs::read(&temp_path)?;
-        io::stdout().write_all(&contents)?;
-        std::fs::remove_file(&temp_path)?;
+        match output_file.as_mut() {
+            Some(file) => file.write_all(&contents)?,
+            None => io::stdout().write_all(&contents)?,
+        }
     }
+    std::fs::remove_file(&temp_path)?;
 
     decompressor.close()?;
     Ok(())
